@@ -6,7 +6,7 @@ NS = 16  # slices per sweep
 
 def seq(prop, variant, prec, n, grid, forced=0, vkind=0, family='pat', slices=NS, extra=()):
     out = []
-    k = slices if (family == 'pat' and n >= 3) else (min(slices, 12) if family == 'cat' else 1)
+    k = slices if (family in ('pat', 'sympat') and n >= 3) else (min(slices, 12) if family == 'cat' else 1)
     for i in range(k):
         out.append({'engine': 'mcseq/mcseq.c', 'variant': variant, 'prec': prec,
                     'args': ['--prop', prop, '--family', family, '--n', str(n), '--grid', grid, '--forced', str(forced),
@@ -209,6 +209,10 @@ def jobs_C16(tier):
         for n in (1, 2, 3):
             j += seq('C16', 'qh', p, n, 'full')
         j += seq('C16', 'qh', p, 4, 'quick' if tier == 'quick' else 'full')
+        if p == 'd' or tier != 'quick':
+            j += seq('C16', 'qh', p, 5, 'quick', family='sympat')
+        if tier != 'quick' and p in 'dz':
+            j += seq('C16', 'qh', p, 6, 'quick', family='sympat')
     if tier != 'quick':
         j += seq('C16', 'ql', 'd', 4, 'quick')
     return j
